@@ -87,3 +87,48 @@ Proof.
     assert (E2 : aget k kv = Some c') by (apply In_aget; [exact Hnd|]; eapply Permutation_in; [apply Permutation_sym; exact HP|]; now apply aget_In).
     congruence.
 Qed.
+
+(* the side condition does not depend on the order of entries either *)
+Lemma lcompat_peqvp : forall b b' a a', pwf b -> pwf b' -> peqvp a a' -> peqvp b b' -> lcompat a b -> lcompat a' b'.
+Proof.
+  induction b as [pn [vn|ln]|pn kv IH] using pp_ind'; intros b' a a' Wb Wb' Ha Hb Hc.
+  - inversion Hb; subst. exact I.
+  - inversion Hb; subst. inversion Ha; subst; [exact Hc|cbn in Hc; contradiction].
+  - inversion Hb as [|p0 kv0 kv' Hk]; subst.
+    inversion Ha as [po [vo|lo]|po okv okv' Hko]; subst; [exact I|cbn in Hc; contradiction|].
+    apply lcompat_DD. apply lcompat_DD in Hc.
+    inversion Wb as [|? ? Hnd HF]; subst. inversion Wb' as [|? ? Hnd' HF']; subst.
+    rewrite Forall_forall in IH, Hc, HF, HF' |- *. intros [k v'] Hin'. cbn [fst snd].
+    pose proof (Hk k) as Ek. rewrite (In_aget k v' kv' Hnd' Hin') in Ek.
+    inversion Ek as [|v ? Rv E1 E2]; subst. symmetry in E1.
+    pose proof (aget_In k v kv E1) as Hin.
+    specialize (Hc (k, v) Hin). cbn [fst snd] in Hc.
+    pose proof (Hko k) as Eo.
+    destruct (aget k okv') as [ov'|] eqn:E3; [|exact I].
+    inversion Eo as [|ov ? Ro E4 E5]; subst. rewrite <- E4 in Hc.
+    exact (IH (k, v) Hin v' ov ov' (HF (k, v) Hin) (HF' (k, v') Hin') Ro Rv Hc).
+Qed.
+
+Lemma hcompat_peqvp : forall l l' a a', pwf a -> pwf a' -> Forall pwf l -> Forall pwf l' -> peqvp a a' -> Forall2 peqvp l l' ->
+  hcompat a l -> hcompat a' l'.
+Proof.
+  induction l as [|b l IH]; intros l' a a' Wa Wa' Wl Wl' Ha Hl Hh; inversion Hl as [|? b' ? r' Hb Hr]; subst; [exact I|].
+  inversion Wl; subst. inversion Wl'; subst. cbn [hcompat] in *. destruct Hh as [Hc Hh]. split.
+  - match goal with Hb1 : pwf b, Hb2 : pwf b' |- _ => exact (lcompat_peqvp b b' a a' Hb1 Hb2 Ha Hb Hc) end.
+  - match goal with Hb1 : pwf b, Hb2 : pwf b', Hl1 : Forall pwf l, Hl2 : Forall pwf r' |- _ =>
+      apply (IH r' (upd_p a b) (upd_p a' b')); [apply upd_p_pwf; assumption|apply upd_p_pwf; assumption|exact Hl1|exact Hl2|apply upd_p_peqvp; assumption|exact Hr|exact Hh] end.
+Qed.
+
+Theorem key_order_neutral_prio1 e s0 sts s0' sts' :
+  Forall NewZ (s0 :: sts) -> Forall NewZ (s0' :: sts') -> forallb is_dictk (s0 :: sts) = true -> forallb is_dictk (s0' :: sts') = true ->
+  Forall2 peqvp (map perase (s0 :: sts)) (map perase (s0' :: sts')) ->
+  hcompat (perase s0) (map perase sts) ->
+  exists n m, flatten e (s0 :: sts) = Ok n /\ flatten e (s0' :: sts') = Ok m /\ peqvp (perase n) (perase m).
+Proof.
+  intros HF HF' HD HD' H2 Hh. apply key_order_neutral_prio; auto.
+  assert (W : forall l, Forall NewZ l -> Forall pwf (map perase l)).
+  { induction 1 as [|x r Hx Hr' IHr]; cbn [map]; constructor; auto. apply OldZ_pwf, NewZ_oldz, Hx. }
+  cbn [map] in H2. inversion H2 as [|? ? ? ? H0 Hr]; subst.
+  inversion HF as [|? ? N0 NR]; subst. inversion HF' as [|? ? N0' NR']; subst.
+  eapply hcompat_peqvp; [| | | |exact H0|exact Hr|exact Hh]; auto using OldZ_pwf, NewZ_oldz.
+Qed.
